@@ -21,6 +21,16 @@ def classify(e):
 
 def events(ctx):
     rng = ctx.rng
+    # inputs that begin with each octet pattern the SOURCE of the tree under test names as a literal (core.source_constants):
+    # in front of a valid header, and in place of its first octets
+    from ..core import source_constants
+    from ..ops_ecss import _mk_hdr
+    for c in source_constants():
+        for h in ({"ver": 0, "type": 1, "shf": 1, "apid": 0x2CF, "flags": 3, "count": 0x3C1D, "dlen": 4},
+                  {"ver": 0, "type": 0, "shf": 0, "apid": 5, "flags": 1, "count": 9, "dlen": 0}):
+            raw = list(bytes(_mk_hdr(h).pack()))
+            yield record("sph.unpack", {"octets": list(c) + raw + [1, 2, 3, 4]})
+            yield record("sph.unpack", {"octets": (list(c) + raw[len(c):] if len(c) < 6 else list(c)[:6]) + [9, 8, 7, 6, 5, 4]})
     base = {"ver": 0, "type": 1, "shf": 0, "apid": 0x42, "flags": 3, "count": 22, "dlen": 12}
     fixed = [0x18, 0x42, 0xC0, 0x16, 0x00, 0x0C]
     # decoder: every value of each header word
